@@ -83,6 +83,17 @@ Theorem C01_C03_equal_signature_equal_output_up_to_A_hash :
 Proof. exact equal_signature_equal_run. Qed.
 Print Assumptions C01_C03_equal_signature_equal_output_up_to_A_hash.
 
+(* ---------------------------------------------------------------- C08 *)
+(* reg_lambda_f<team<i_mep>>: the members' interpreters are run in order; the
+   output is the running mean of the denotations of the members' active trees,
+   whatever each member's interpreter object executed before *)
+Theorem C01_C08_team_run_is_member_denotations : forall ms ex,
+  Forall (fun m => wf_genome (fst m)) ms ->
+  exists ts, Forall2 (fun m t => active_tree (fst m) = Some t) ms ts /\
+             fst (team_run ms ex) = team_den ts (nth_error ex) F64.zero F64.zero.
+Proof. exact team_run_is_member_denotations. Qed.
+Print Assumptions C01_C08_team_run_is_member_denotations.
+
 (* H_nopar is a theorem for the shipped primitives: a translated body that
    does not mention p.fetch_param() yields a strategy that does not depend on
    the gene's parameter, and every regenerated body except the three
